@@ -1313,7 +1313,7 @@ def compile_match_expression(compiler, expr, root, subject, clauses):
     lifted_if_defs = []
     match_cases = []
     for *pattern, guard, body in clauses:
-        if guard and body == Keyword("as"):
+        if guard is not None and body == Keyword("as"):
             compiler._syntax_error(body, ":as clause cannot come after :if guard")
 
         body = compiler._compile_branch([body])
@@ -1323,7 +1323,8 @@ def compile_match_expression(compiler, expr, root, subject, clauses):
 
         pattern = compile_pattern(compiler, pattern)
 
-        if guard:
+        if guard is not None:
+            # (A guard can be a falsy model, such as `0` or `""`.)
             guard = compiler.compile(guard)
             if guard.stmts:
                 fname = compiler.get_anon_var()
@@ -1348,7 +1349,7 @@ def compile_match_expression(compiler, expr, root, subject, clauses):
         match_cases.append(
             ast.match_case(
                 pattern=pattern,
-                guard=guard.force_expr if guard else None,
+                guard=guard.force_expr if guard is not None else None,
                 body=body,
             )
         )
